@@ -352,6 +352,7 @@ class Run:
         self.errors = []
         self.clock = None
         self.base = None
+        self.final_done_at = None
 
     def make_task(self, tid, spec):
         run = self
@@ -460,6 +461,12 @@ class Run:
             self.cut([])
             cid = 'tempo%d' % sc.get('index', 0)
             self.clock = new_tempo(float(Fraction(*sc.get('tempo', [1, 1]))), cid)
+            # the scenario starts when the new clock thread sits in its first wait (start-up
+            # interleavings -- clients acting before the thread first takes the lock -- are not modelled)
+            if PROXIES:
+                wait_for(lambda: any(e[0] == cid and e[1] == 'wait_begin' for e in LOG), 5)
+            else:
+                time.sleep(0.03)
         c = self.clock
         for tid, spec in sc['tasks'].items():
             self.tasks[int(tid)] = self.make_task(int(tid), spec)
@@ -489,7 +496,11 @@ class Run:
                     break
                 time.sleep(0.005)
         else:
-            time.sleep(sc.get('before_final', 0.03))
+            need = sc.get('wait_for', [])
+            if need:
+                wait_for(lambda: all(self.count.get(t, 0) > 0 for t in need), sc.get('before_final', 0.03))
+            else:
+                time.sleep(sc.get('before_final', 0.03))
             if final == 'clear':
                 c.clear()
             elif final == 'stop':
@@ -500,7 +511,7 @@ class Run:
                     c._sched_stop()
                 else:
                     c._stop()
-            n_before = len(self.awakes)
+            self.final_done_at = real_now()
             time.sleep(sc.get('after_final', 0.12))
         time.sleep(0.02)
         alive = None
@@ -516,7 +527,8 @@ class Run:
                 'base': fr(self.base), 'log': [list(e) for e in log if e[0] == cid],
                 'other': sorted(set(str(e[0]) for e in log if e[0] != cid)),
                 'awakes': self.awakes, 'scheds': self.scheds, 'errors': self.errors,
-                'alive': alive, 'window': window, 'problems': list(PROBLEMS)}
+                'alive': alive, 'window': window, 'problems': list(PROBLEMS),
+                'final_done_at': self.final_done_at}
 
     def client(self, i, ops):
         for op in ops:
@@ -569,7 +581,8 @@ def main_():
         except Exception as e:
             import traceback
             out.append({'name': sc['name'], 'clock': sc['clock'], 'crash': traceback.format_exc()})
-    json.dump({'results': out}, open(sys.argv[2], 'w'))
+    json.dump({'results': out, 'app_variant': 'flag' if hasattr(clk.AppClock, '_tick_pending') else 'orig'},
+              open(sys.argv[2], 'w'))
     sys.stdout.flush()
     os._exit(0)
 
